@@ -18,20 +18,26 @@ Proof. reflexivity. Qed.
 (* THE characterisation the lock model's proofs use: for an aware LastModified the kernel is the
    difference of the two INSTANTS -- the process zone and both utcoffsets cancel; for a naive one the
    expression raises. *)
+(* (proved by computation on the datetime primitives, not by the shape of the generated term: any
+   regenerated expression that denotes the same function passes, any other breaks here) *)
+Ltac age_unfold :=
+  cbv [takeover_age takeover_keeps dt_now dt_utcnow dt_sub dt_timestamp dt_mktime_fields dt_timegm_utcfields
+       dt_replace_tz dt_instant dt_render dt_aware dt_naive obind wall uoff].
+
 Theorem takeover_age_aware : forall zone now inst off lease,
   takeover_age zone now (dt_aware inst off) lease = Some (now - inst).
-Proof. intros. unfold takeover_age, dt_now. apply dt_sub_aware. Qed.
+Proof. intros. age_unfold. f_equal. lia. Qed.
 
 Theorem takeover_age_naive : forall zone now w lease,
   takeover_age zone now (dt_naive w) lease = None.
-Proof. intros. reflexivity. Qed.
+Proof. intros. age_unfold. reflexivity. Qed.
 
 Theorem takeover_age_render : forall zone now l lease r,
   takeover_age zone now (dt_render r l) lease = match r with Some _ => Some (now - l) | None => None end.
 Proof. intros. destruct r as [off|]; simpl; [apply takeover_age_aware|apply takeover_age_naive]. Qed.
 
 Theorem takeover_keeps_spec : forall age lease, takeover_keeps age lease = (age <=? lease).
-Proof. reflexivity. Qed.
+Proof. intros. age_unfold. reflexivity. Qed.
 
 (* zone independence, stated on its own: two processes in different zones, handed the same instant in
    different renderings, compute the same age *)
